@@ -182,7 +182,7 @@ vf::CaseResult run_case(const std::string &id, const Program &prog, Stats &st) {
     res.nontrivial = c05.nontrivial > 0;
   } else if (id == "C08") {
     st.count("edges_checked", c08.edges); st.count("faces_checked", c08.faces); st.count("closed_loop_faces_checked", c08.closed_checked);
-    st.count("selfloop_edges", c08.selfloops); st.count("nextprev_skipped_halfedge_twice", c08.nextprev_skipped);
+    st.count("selfloop_edges", c08.selfloops); st.count("backward_circulator_walks", c08.backward_walks); st.count("nextprev_skipped_halfedge_twice", c08.nextprev_skipped);
     for (int k = 1; k <= 8; ++k) st.count("face_valence_" + std::to_string(k) + (k == 8 ? "+" : ""), c08.faces_valence[k]);
     res.nontrivial = c08.closed_checked > 0 && c08.faces_valence[3] + c08.faces_valence[4] > 0;
   } else if (id == "C09") {
